@@ -210,6 +210,8 @@ class Evaluator:
         if name == "f_sha3_0":
             self.interp.inv_sha3[EMPTY_KECCAK & ((1 << 160) - 1)] = (0, 0)
             return EMPTY_KECCAK
+        if z3.is_array(e) and name.startswith("tstorage_") and _is_empty_array_name(name) and (self.zero_arrays or self.interp.storage0 is not None):
+            return Arr(0)  # transient storage starts empty, whatever the account's persistent storage is
         if self.interp.storage0 is not None and _is_empty_array_name(name) and name != "balance_00":
             f = self.interp.storage0
             if z3.is_array(e):
@@ -408,8 +410,8 @@ class Evaluator:
 
 
 def _is_empty_array_name(name: str) -> bool:
-    # halmos names the initial (all-zero) arrays storage_<...>_00 and balance_00
-    return name.endswith("_00") and (name.startswith("storage_") or name == "balance_00")
+    # halmos names the initial (all-zero) arrays storage_<...>_00, tstorage_<...>_00 (transient) and balance_00
+    return name.endswith("_00") and (name.startswith("storage_") or name.startswith("tstorage_") or name == "balance_00")
 
 
 def selftest() -> None:
